@@ -365,7 +365,13 @@ class Program:
             modp = re.sub(r'^[a-z_0-9]+::', '', modp) if modp.split('::')[0] in CRATE_ALIAS else modp
             pat = re.compile(re.escape(modp) + r'::<impl at [^>]*>::' + re.escape(meth))
             cands = [k2 for k2, it in self.items.items() if it.kind == 'fn' and pat.fullmatch(it.name)]
-            cands = [k2 for k2 in cands if re.search(r'\b' + re.escape(ty) + r'\b', self.items[k2].header)]
+            def impl_type_ok(k2):
+                hdr = self.impl_hdr.get(k2)
+                if hdr and hdr.startswith('impl'):
+                    s = re.sub(r'^impl\s*(<[^>]*>)?\s*', '', hdr); s = re.sub(r'\s+where\s.*$', '', s)
+                    return lastseg(s.split(' for ', 1)[-1]) == ty          # the impl block names its type: it must be the type asked for
+                return re.search(r'\b' + re.escape(ty) + r'\b', self.items[k2].header) is not None
+            cands = [k2 for k2 in cands if impl_type_ok(k2)]
             if len(cands) == 1: return cands[0]
         return None
 
